@@ -502,6 +502,7 @@ class Summaries:
             self.I.raw_access(st, inst, self.span(t), ("bufelem", d[1], d[2], True), write=True, count=cnt)
         else:
             self.ctx.oblige("raw-write-in-capacity", False, inst, self.span(t), "write_bytes to an untracked destination")
+            st.ghost.pop(("pristine",), None)
         return [(st, None)]
 
     # -- integers ------------------------------------------------------------------
